@@ -171,8 +171,12 @@ theorem entryParams_dom (f : Fn) : (entryParams f).map (·.1) = List.range (f.pa
 
 theorem lowerSL_eq_sb (f : Fn) : lowerSL f = sb (entryParams f) (entryInstrs f) := rfl
 
-/-- the front end produces well-formed SSA on well-typed functions of the fragment -/
-theorem lower_wellFormed (f : Fn) (hwt : wellTyped f = true) : wellFormed (lowerSL f) = true := by
+/-- what the translation of a well-typed function guarantees statically: no branch instruction, every value
+defined once, every operand defined before its use and shifts of the right type -/
+theorem lower_static (f : Fn) (hwt : wellTyped f = true) :
+    (∀ j ∈ entryInstrs f, j.branch? = none) ∧
+    ((entryParams f).map (·.1) ++ (entryInstrs f).flatMap (·.results)).Nodup ∧
+    Scoped (entryParams f) (entryInstrs f) := by
   have hz0 : ∀ t v, (({} : Zeros).get t = some v) → (v, t) ∈ entryParams f := by
     intro t v h; cases t <;> cases h
   obtain ⟨hd1, hd2, hd3, hd4⟩ := declLocals_static f.locals (f.params.length + 2) {} (entryParams f)
@@ -201,8 +205,7 @@ theorem lower_wellFormed (f : Fn) (hwt : wellTyped f = true) : wellFormed (lower
       congr 1
       exact List.map_id'' (fun _ => rfl) _
   obtain ⟨hb, hsc, N, hN⟩ := static_body f.results f.results.length f.body _ _ _ hinv hwt
-  rw [lowerSL_eq_sb]
-  refine wellFormed_sb ?_ ?_ ?_
+  refine ⟨?_, ?_, ?_⟩
   · intro j hj
     rcases List.mem_append.mp (show j ∈ (initLS f).1 ++ _ from hj) with hj | hj
     · exact hd1 j hj
@@ -212,5 +215,11 @@ theorem lower_wellFormed (f : Fn) (hwt : wellTyped f = true) : wellFormed (lower
       simp only [entryInstrs, initLS, List.map_append, flatMap_typed_fst, List.flatMap_append, List.append_assoc]
     rw [this]; exact List.nodup_range
   · exact (scoped_append _ _ _).mpr ⟨hd2, hsc⟩
+
+/-- the front end produces well-formed SSA on well-typed functions of the fragment -/
+theorem lower_wellFormed (f : Fn) (hwt : wellTyped f = true) : wellFormed (lowerSL f) = true := by
+  obtain ⟨h1, h2, h3⟩ := lower_static f hwt
+  rw [lowerSL_eq_sb]
+  exact wellFormed_sb h1 h2 h3
 
 end Wz.Proofs.Front
